@@ -13,6 +13,7 @@ import (
 	"time"
 
 	sdk "github.com/cosmos/cosmos-sdk/types"
+	banktypes "github.com/cosmos/cosmos-sdk/x/bank/types"
 	"github.com/ethereum/go-ethereum/common"
 
 	"github.com/teleport-network/teleport/app"
@@ -102,6 +103,9 @@ type World struct {
 	// Counter is a contract installed on every chain that increments its storage slot 0 on every call; used as
 	// the sender's callback address to count how often the packet contract runs the callback.
 	Counter common.Address
+	// Moody is a contract installed on every chain that REVERTS every call while its own balance is zero and otherwise counts
+	// the call like Counter (slot 0); used as a sender callback whose execution fails until somebody funds the contract.
+	Moody common.Address
 	// Bomb is a contract installed on every chain that loops until it runs out of gas.
 	Bomb common.Address
 
@@ -160,6 +164,11 @@ func NewWorldOpts(n int, seed []byte, o WorldOpts) *World {
 	for _, c := range w.Chains {
 		// PUSH1 0 SLOAD PUSH1 1 ADD PUSH1 0 SSTORE STOP
 		c.App.SetEVMCode(c.Ctx(), w.Counter, []byte{0x60, 0x00, 0x54, 0x60, 0x01, 0x01, 0x60, 0x00, 0x55, 0x00})
+	}
+	w.Moody = common.HexToAddress("0x00000000000000000000000000000000C0FFEE03")
+	for _, c := range w.Chains {
+		// SELFBALANCE ISZERO PUSH1 15 JUMPI | PUSH1 0 SLOAD PUSH1 1 ADD PUSH1 0 SSTORE STOP | JUMPDEST PUSH1 0 PUSH1 0 REVERT
+		c.App.SetEVMCode(c.Ctx(), w.Moody, []byte{0x47, 0x15, 0x60, 0x0f, 0x57, 0x60, 0x00, 0x54, 0x60, 0x01, 0x01, 0x60, 0x00, 0x55, 0x00, 0x5b, 0x60, 0x00, 0x60, 0x00, 0xfd})
 	}
 	w.Bomb = common.HexToAddress("0x00000000000000000000000000000000C0FFEE02")
 	for _, c := range w.Chains {
@@ -389,7 +398,7 @@ func (w *World) Send(s SendSpec, wantDumps bool) *SendOutcome {
 		pk := &Pkt{ID: len(w.Pkts), Bz: bz, P: p, T: Triple{p.SrcChain, p.DstChain, p.Sequence}, SrcIdx: s.Src, DstIdx: w.Idx(p.DstChain),
 			Token: s.Token, Amount: new(big.Int).Set(s.Amount), Fee: new(big.Int).Set(s.Fee), FeeTok: s.Token, Sender: w.Users[s.User],
 			Call: s.Call, SentAt: c.Header.Height, ViaAgent: strings.HasPrefix(s.Call, "agent:"), RefundTo: w.Users[s.User].Addr,
-			Callback: s.Callback == w.Counter}
+			Callback: s.Callback == w.Counter || s.Callback == w.Moody}
 		if common.IsHexAddress(s.Receiver) {
 			pk.RecvAdr = common.HexToAddress(s.Receiver)
 		}
@@ -500,7 +509,21 @@ func (w *World) ObservePackets(ci int, res kit.TxResult) []*Pkt {
 func (w *World) CounterValue(ci int) uint64 {
 	c := w.Chains[ci]
 	v := c.App.EvmKeeper.GetState(c.Ctx(), w.Counter, common.Hash{})
-	return new(big.Int).SetBytes(v.Bytes()).Uint64()
+	v2 := c.App.EvmKeeper.GetState(c.Ctx(), w.Moody, common.Hash{})
+	return new(big.Int).SetBytes(v.Bytes()).Uint64() + new(big.Int).SetBytes(v2.Bytes()).Uint64()
+}
+
+// MoodyFunded says whether the moody callback contract of chain ci currently accepts calls.
+func (w *World) MoodyFunded(ci int) bool {
+	c := w.Chains[ci]
+	return c.App.EvmKeeper.GetBalance(c.Ctx(), w.Moody).Sign() > 0
+}
+
+// FundMoody sends one base unit of the chain's coin to the moody contract's account (a plain bank transfer: no EVM code runs).
+func (w *World) FundMoody(ci int, user int) bool {
+	c := w.Chains[ci]
+	u := w.Users[user]
+	return c.Deliver(u, banktypes.NewMsgSend(u.Acc, sdk.AccAddress(w.Moody.Bytes()), sdk.NewCoins(sdk.NewInt64Coin(sdk.DefaultBondDenom, 1)))).OK()
 }
 
 // ByTriple finds an observed packet.
